@@ -7,11 +7,15 @@
   * readers  : every FINITE pattern (normal, subnormal, ±0) is read back as itself (`ieee_read_finite_*`, C20's
                `ieee_read_native_*` is the normal case); Inf ↦ Inf, NaN ↦ Inf of the NaN's sign.  The readers before the two
                `fix:` commits are kept as `…Old` with `read_zero_old_rule`, `f32/f64_read_subnormal_old_rule`.
-  * writers  : every normal value is written as its own bit string (`ieee_write_native_*`, full strength).  The rule before the
-               `fix:` commit (`fabs (in) < 1e-30`) is kept: `ieee_write_*_old_rule_fails`, `ieee_write_old_rule_partial`,
-               `flushes_old_rule_iff_*` (the class in bit terms).  Zeros and subnormals are written as +0 (`ieee_write_tiny`):
-               C01's class `KF.ieeeTiny` (`replace_roundtrip_fails` / `replace_roundtrip_partial`).
-  * buffers  : `replace_write_native_*`, `replace_read_native_*`: the array paths equal the native paths on normal values.
+  * writers  : EVERY finite value — normal, subnormal, ±0 — is written as its own bit string (`ieee_write_finite_*`; C20's
+               `ieee_write_native_*` is the normal case).  The rule before the first `fix:` commit (`fabs (in) < 1e-30`) is kept:
+               `ieee_write_*_old_rule_fails`, `ieee_write_old_rule_partial`, `flushes_old_rule_iff_*` (the class in bit terms);
+               so is the rule before the second (`fabs (in) < FLT_MIN` early return, sign by `in < 0.0`; `…TinyOld`):
+               `ieee_write_tiny_old_rule`, `ieee_write_finite_tiny_old_rule_fails` (2^-127, −0.0), `ieee_write_native_tiny_old_rule`.
+  * round trip: `replace_roundtrip` (C01 through the portable path, full strength: every finite value), with
+               `replace_roundtrip_old_rule_fails` / `_partial` over the former class `KF.ieeeTiny`.
+  * buffers  : `replace_write_finite_*`, `replace_read_finite_*`, `replace_buffer_roundtrip`: the array paths equal the native
+               paths on every buffer of finite values (`…_native_*`: the normal values of the C20 statement).
   * byte order: `ENDSWAP_16/32/64` are involutions and reverse the byte string (Nat and BitVec forms, proved equal);
                `psf_put_be*` / `psf_get_*` are mutually inverse in both directions for 16, 32 and 64 bits.
 -/
@@ -224,10 +228,11 @@ example : f32LeReadOld (Spec.bytesLE f32 1) = 0x3F800001 ∧ f32BeReadOld (Spec.
     f64LeReadOld (Spec.bytesLE f64 1) = 0x0008000000000000 ∧
     f32.expo 1 = 0 ∧ f32.frac 1 ≠ 0 ∧ f64.expo 1 = 0 := by decide +kernel
 
-/-! ## writers (current rule: `fabs (in) < FLT_MIN` / `DBL_MIN`, after the `fix:` commit "flushed every normal value
-    below 1e-30 to zero") -/
+/-! ## writers (current rule: after the `fix:` commits "flushed every normal value below 1e-30 to zero" and
+    "wrote subnormal numbers and -0.0 as +0.0": `signbit`, exponent field 0 encoded, no early return) -/
 
-/-- what is flushed now: exactly the zeros and the subnormals -/
+/-- `in < FLT_MIN` / `in < DBL_MIN` (the branch the repaired writers take for exponent field 0; the early return of the
+    writers before that repair): exactly the zeros and the subnormals -/
 theorem flushes_iff_not_normal (f : Fmt) (b : Nat) (hfin : f.isFinite b = true) :
     flushes f b = true ↔ f.expo b = 0 := by
   constructor
@@ -246,7 +251,7 @@ theorem f32WriteBytesWith_normal (fl : Nat → Bool) (b : Nat) (hb : b < 2 ^ 32)
   obtain ⟨h1, h2, h3⟩ := f32_fields b
   have hsgn : (if f32.sign b = true then 1 else 0) = b / 2147483648 % 2 := by
     rw [h3]; by_cases hs : b / 2147483648 % 2 = 1 <;> simp [hs]; omega
-  simp only [f32WriteBytesWith, hw]
+  simp only [f32WriteBytesWith, f32FieldBytes, hw]
   rw [hsgn, h1, h2]
   simp only [List.cons.injEq, and_true]
   refine ⟨?_, ?_, ?_, ?_⟩ <;> (show ((_ : Nat) = _); omega)
@@ -258,53 +263,151 @@ theorem f64WriteBytesWith_normal (fl : Nat → Bool) (b : Nat) (hb : b < 2 ^ 64)
   obtain ⟨h1, h2, h3⟩ := f64_fields b
   have hsgn : (if f64.sign b = true then 1 else 0) = b / 9223372036854775808 % 2 := by
     rw [h3]; by_cases hs : b / 9223372036854775808 % 2 = 1 <;> simp [hs]; omega
-  simp only [f64WriteBytesWith, hw]
+  simp only [f64WriteBytesWith, f64FieldBytes, hw]
   rw [hsgn, h1, h2]
   simp only [List.cons.injEq, and_true]
   clear hw hsgn h1 h2 h3 hk hn
   refine ⟨?_, ?_, ?_, ?_, ?_, ?_, ?_, ?_⟩ <;> (show ((_ : Nat) = _); omega)
 
-/-- the C20 statement for the binary32 writers, at full strength: every finite normal value is serialised to its own
-    bit string, in both byte orders -/
-theorem ieee_write_native_f32 (b : Nat) (hb : b < 2 ^ 32) (hn : Spec.isNormal f32 b = true) :
+/-- the bytes of the fields (sign, E, T) of a pattern are the pattern's own bytes, most significant first -/
+theorem f32FieldBytes_fields (b : Nat) (hb : b < 2 ^ 32) :
+    f32FieldBytes ((if f32.sign b then 1 else 0), f32.expo b, f32.frac b) =
+      [b / 16777216 % 256, b / 65536 % 256, b / 256 % 256, b % 256] := by
+  obtain ⟨h1, h2, h3⟩ := f32_fields b
+  have hsgn : (if f32.sign b = true then 1 else 0) = b / 2147483648 % 2 := by
+    rw [h3]; by_cases hs : b / 2147483648 % 2 = 1 <;> simp [hs]; omega
+  simp only [f32FieldBytes]
+  rw [hsgn, h1, h2]
+  simp only [List.cons.injEq, and_true]
+  refine ⟨?_, ?_, ?_, ?_⟩ <;> (show ((_ : Nat) = _); omega)
+
+/-- binary64: (sign, E, upper integer with or without the hidden bit 2^28, lower 24 bits) -/
+theorem f64FieldBytes_fields (b : Nat) (hb : b < 2 ^ 64) (hid : Nat) (hh : hid = 0 ∨ hid = 2 ^ 28) :
+    f64FieldBytes ((if f64.sign b then 1 else 0), f64.expo b, hid + f64.frac b / 2 ^ 24, f64.frac b % 2 ^ 24) =
+      [b / 72057594037927936 % 256, b / 281474976710656 % 256, b / 1099511627776 % 256,
+       b / 4294967296 % 256, b / 16777216 % 256, b / 65536 % 256, b / 256 % 256, b % 256] := by
+  obtain ⟨h1, h2, h3⟩ := f64_fields b
+  have hsgn : (if f64.sign b = true then 1 else 0) = b / 9223372036854775808 % 2 := by
+    rw [h3]; by_cases hs : b / 9223372036854775808 % 2 = 1 <;> simp [hs]; omega
+  simp only [f64FieldBytes]
+  rw [hsgn, h1, h2]
+  simp only [List.cons.injEq, and_true]
+  clear hsgn h1 h2 h3
+  rcases hh with rfl | rfl <;> refine ⟨?_, ?_, ?_, ?_, ?_, ?_, ?_, ?_⟩ <;> (show ((_ : Nat) = _); omega)
+
+/-- the repaired binary32 writers, at FULL strength: EVERY finite value — normal, subnormal, +0 and −0 — is serialised to
+    its own bit string, in both byte orders (the C20 statement asks for the normal values; C01 through the portable path and
+    C18's PEAK field need the rest) -/
+theorem ieee_write_finite_f32 (b : Nat) (hb : b < 2 ^ 32) (hfin : f32.isFinite b = true) :
     f32BeWrite b = Spec.bytesBE f32 b ∧ f32LeWrite b = Spec.bytesLE f32 b := by
-  have hn2 := (finite_of_spec_normal f32 f32_std b hn).1
-  have key := f32WriteBytesWith_normal (flushes f32) b hb hn2 (flushes_normal f32 b hn2)
+  have key : f32WriteBytes b = [b / 16777216 % 256, b / 65536 % 256, b / 256 % 256, b % 256] := by
+    unfold f32WriteBytes
+    by_cases he : f32.expo b = 0
+    · rw [f32WriteFields_tiny b hfin he]
+      have := f32FieldBytes_fields b hb
+      rwa [he] at this
+    · have hne : f32.expo b ≠ f32.emax := by simpa [Fmt.isFinite] using hfin
+      have hn : f32.isNormal b = true := by simp [Fmt.isNormal, hne, he]
+      rw [f32WriteFields_normal b hn]; exact f32FieldBytes_fields b hb
   constructor
-  · rw [f32BeWrite, f32WriteBytes, key, bytesBE_f32]
-  · rw [f32LeWrite, f32WriteBytes, key, bytesLE_f32]; rfl
+  · rw [f32BeWrite, key, bytesBE_f32]
+  · rw [f32LeWrite, key, bytesLE_f32]; rfl
+
+/-- … and the repaired binary64 writers -/
+theorem ieee_write_finite_f64 (b : Nat) (hb : b < 2 ^ 64) (hfin : f64.isFinite b = true) :
+    f64BeWrite b = Spec.bytesBE f64 b ∧ f64LeWrite b = Spec.bytesLE f64 b := by
+  have key : f64WriteBytes b = [b / 72057594037927936 % 256, b / 281474976710656 % 256, b / 1099511627776 % 256,
+      b / 4294967296 % 256, b / 16777216 % 256, b / 65536 % 256, b / 256 % 256, b % 256] := by
+    unfold f64WriteBytes
+    by_cases he : f64.expo b = 0
+    · rw [f64WriteFields_tiny b hfin he]
+      have := f64FieldBytes_fields b hb 0 (Or.inl rfl)
+      rwa [Nat.zero_add, he] at this
+    · have hne : f64.expo b ≠ f64.emax := by simpa [Fmt.isFinite] using hfin
+      have hn : f64.isNormal b = true := by simp [Fmt.isNormal, hne, he]
+      rw [f64WriteFields_normal b hn]; exact f64FieldBytes_fields b hb (2 ^ 28) (Or.inr rfl)
+  constructor
+  · rw [f64BeWrite, key, bytesBE_f64]
+  · rw [f64LeWrite, key, bytesLE_f64]; rfl
+
+/-- the C20 statement for the binary32 writers: every finite normal value is serialised to its own bit string, in both
+    byte orders -/
+theorem ieee_write_native_f32 (b : Nat) (hb : b < 2 ^ 32) (hn : Spec.isNormal f32 b = true) :
+    f32BeWrite b = Spec.bytesBE f32 b ∧ f32LeWrite b = Spec.bytesLE f32 b :=
+  ieee_write_finite_f32 b hb (finite_of_spec_normal f32 f32_std b hn).2
 
 /-- … and for the binary64 writers -/
 theorem ieee_write_native_f64 (b : Nat) (hb : b < 2 ^ 64) (hn : Spec.isNormal f64 b = true) :
-    f64BeWrite b = Spec.bytesBE f64 b ∧ f64LeWrite b = Spec.bytesLE f64 b := by
-  have hn2 := (finite_of_spec_normal f64 f64_std b hn).1
-  have key := f64WriteBytesWith_normal (flushes f64) b hb hn2 (flushes_normal f64 b hn2)
-  constructor
-  · rw [f64BeWrite, f64WriteBytes, key, bytesBE_f64]
-  · rw [f64LeWrite, f64WriteBytes, key, bytesLE_f64]; rfl
+    f64BeWrite b = Spec.bytesBE f64 b ∧ f64LeWrite b = Spec.bytesLE f64 b :=
+  ieee_write_finite_f64 b hb (finite_of_spec_normal f64 f64_std b hn).2
 
-/-- non-vacuity: ordinary values, the smallest normal values and the old boundary are written as their own bytes -/
+/-- non-vacuity: ordinary values, the smallest normal values, the old boundary, and now the exponent-field-0 class:
+    the smallest and the largest subnormal, 2^-127, −0.0 -/
 example : Spec.isNormal f32 0xC2F6E979 = true ∧ f32LeWrite 0xC2F6E979 = [0x79, 0xE9, 0xF6, 0xC2] ∧
     f32BeWrite 0x00800000 = [0x00, 0x80, 0, 0] ∧ f32BeWrite 0x0DA2425F = [0x0D, 0xA2, 0x42, 0x5F] ∧
     Spec.isNormal f64 0x0010000000000000 = true ∧ f64BeWrite 0x0010000000000000 = [0, 0x10, 0, 0, 0, 0, 0, 0] ∧
-    f64BeWrite 0xC00921FB54442D18 = [0xC0, 0x09, 0x21, 0xFB, 0x54, 0x44, 0x2D, 0x18] := by decide +kernel
+    f64BeWrite 0xC00921FB54442D18 = [0xC0, 0x09, 0x21, 0xFB, 0x54, 0x44, 0x2D, 0x18] ∧
+    f32.isFinite 1 = true ∧ f32BeWrite 1 = [0, 0, 0, 1] ∧ f32BeWrite 0x007FFFFF = [0, 0x7F, 0xFF, 0xFF] ∧
+    f32LeWrite 0x00400000 = [0, 0, 0x40, 0] ∧ f32BeWrite 0x80000000 = [0x80, 0, 0, 0] ∧ f32BeWrite 0 = [0, 0, 0, 0] ∧
+    f64BeWrite 1 = [0, 0, 0, 0, 0, 0, 0, 1] ∧ f64LeWrite 0x8000000000000000 = [0, 0, 0, 0, 0, 0, 0, 0x80] ∧
+    f64BeWrite 0x800FFFFFFFFFFFFF = [0x80, 0x0F, 0xFF, 0xFF, 0xFF, 0xFF, 0xFF, 0xFF] := by decide +kernel
 
-/-- zeros and subnormals are written as zero bytes (+0), whatever the value and its sign: the writers have no encoding for
-    exponent field 0.  Outside the C20 statement; it is the write half of the C01 class `KF.ieeeTiny` below. -/
-theorem ieee_write_tiny (b : Nat) :
-    (f32.isFinite b = true → f32.expo b = 0 → f32BeWrite b = [0, 0, 0, 0] ∧ f32LeWrite b = [0, 0, 0, 0]) ∧
-    (f64.isFinite b = true → f64.expo b = 0 → f64BeWrite b = [0, 0, 0, 0, 0, 0, 0, 0] ∧ f64LeWrite b = [0, 0, 0, 0, 0, 0, 0, 0]) := by
+/-! ### the writers before the repair of KF-C01-ieee-tiny / KF-C18-PEAK-SUBNORMAL (`if (fabs (in) < FLT_MIN) return ;` in
+    front of `if (in < 0.0)`; `f32BeWriteTinyOld` &c.) -/
+
+/-- old rule: zeros and subnormals were written as zero bytes (+0), whatever the value and its sign: the writers had no
+    encoding for exponent field 0 -/
+theorem ieee_write_tiny_old_rule (b : Nat) :
+    (f32.isFinite b = true → f32.expo b = 0 → f32BeWriteTinyOld b = [0, 0, 0, 0] ∧ f32LeWriteTinyOld b = [0, 0, 0, 0]) ∧
+    (f64.isFinite b = true → f64.expo b = 0 →
+      f64BeWriteTinyOld b = [0, 0, 0, 0, 0, 0, 0, 0] ∧ f64LeWriteTinyOld b = [0, 0, 0, 0, 0, 0, 0, 0]) := by
   constructor
   · intro hfin he
     have h := flushes_expo_zero f32 b hfin he
     have hw : f32WriteFieldsWith (flushes f32) b = none := by
       unfold f32WriteFieldsWith; simp only [hfin, Bool.not_true, Bool.false_eq_true, if_false, h, if_true]
-    simp [f32BeWrite, f32LeWrite, f32WriteBytes, f32WriteBytesWith, hw]
+    simp [f32BeWriteTinyOld, f32LeWriteTinyOld, f32WriteBytesWith, hw]
   · intro hfin he
     have h := flushes_expo_zero f64 b hfin he
     have hw : f64WriteFieldsWith (flushes f64) b = none := by
       unfold f64WriteFieldsWith; simp only [hfin, Bool.not_true, Bool.false_eq_true, if_false, h, if_true]
-    simp [f64BeWrite, f64LeWrite, f64WriteBytes, f64WriteBytesWith, hw]
+    simp [f64BeWriteTinyOld, f64LeWriteTinyOld, f64WriteBytesWith, hw]
+
+/-- old rule: on the normal values (all the C20 statement asks for) those writers were already exact -/
+theorem ieee_write_native_tiny_old_rule :
+    (∀ b, b < 2 ^ 32 → Spec.isNormal f32 b = true →
+      f32BeWriteTinyOld b = Spec.bytesBE f32 b ∧ f32LeWriteTinyOld b = Spec.bytesLE f32 b) ∧
+    (∀ b, b < 2 ^ 64 → Spec.isNormal f64 b = true →
+      f64BeWriteTinyOld b = Spec.bytesBE f64 b ∧ f64LeWriteTinyOld b = Spec.bytesLE f64 b) := by
+  constructor
+  · intro b hb hn
+    have hn2 := (finite_of_spec_normal f32 f32_std b hn).1
+    have key := f32WriteBytesWith_normal (flushes f32) b hb hn2 (flushes_normal f32 b hn2)
+    constructor
+    · rw [f32BeWriteTinyOld, key, bytesBE_f32]
+    · rw [f32LeWriteTinyOld, key, bytesLE_f32]; rfl
+  · intro b hb hn
+    have hn2 := (finite_of_spec_normal f64 f64_std b hn).1
+    have key := f64WriteBytesWith_normal (flushes f64) b hb hn2 (flushes_normal f64 b hn2)
+    constructor
+    · rw [f64BeWriteTinyOld, key, bytesBE_f64]
+    · rw [f64LeWriteTinyOld, key, bytesLE_f64]; rfl
+
+/-- the full-strength writer statement for the old writers … -/
+def ieee_write_finite_tiny_old_rule_full : Prop :=
+  (∀ b, b < 2 ^ 32 → f32.isFinite b = true → f32BeWriteTinyOld b = Spec.bytesBE f32 b) ∧
+  (∀ b, b < 2 ^ 64 → f64.isFinite b = true → f64BeWriteTinyOld b = Spec.bytesBE f64 b)
+
+/-- … was false: 2^-127 (pattern 0x00400000) and −0.0 were written as four zero bytes, the smallest double subnormal and
+    the double −0.0 as eight -/
+theorem ieee_write_finite_tiny_old_rule_fails : ¬ ieee_write_finite_tiny_old_rule_full ∧
+    f32BeWriteTinyOld 0x00400000 = [0, 0, 0, 0] ∧ f32BeWriteTinyOld 0x80000000 = [0, 0, 0, 0] ∧
+    f64BeWriteTinyOld 1 = [0, 0, 0, 0, 0, 0, 0, 0] ∧ f64BeWriteTinyOld 0x8000000000000000 = [0, 0, 0, 0, 0, 0, 0, 0] := by
+  refine ⟨?_, by decide +kernel, by decide +kernel, by decide +kernel, by decide +kernel⟩
+  intro h
+  have := h.1 0x00400000 (by decide) (by decide)
+  revert this
+  decide +kernel
 
 /-! ### the writers before the repair (`fabs (in) < 1e-30`, `f32BeWriteOld` &c.) -/
 
@@ -404,28 +507,55 @@ theorem ieee_write_old_rule_partial :
 
 /-! ## write then read (also the C01 statement for the portable path: SFC_TEST_IEEE_FLOAT_REPLACE on) -/
 
-/-- every finite normal value survives write-then-read bit for bit, in both byte orders -/
-theorem write_read_roundtrip_f32 (b : Nat) (hb : b < 2 ^ 32) (hn : Spec.isNormal f32 b = true) :
+/-- every FINITE value survives write-then-read bit for bit, in both byte orders -/
+theorem write_read_finite_f32 (b : Nat) (hb : b < 2 ^ 32) (hfin : f32.isFinite b = true) :
     f32BeRead (f32BeWrite b) = b ∧ f32LeRead (f32LeWrite b) = b := by
-  obtain ⟨w1, w2⟩ := ieee_write_native_f32 b hb hn
-  obtain ⟨r1, r2⟩ := ieee_read_native_f32 b hb hn
+  obtain ⟨w1, w2⟩ := ieee_write_finite_f32 b hb hfin
+  obtain ⟨r1, r2⟩ := ieee_read_finite_f32 b hb hfin
   rw [w1, w2]; exact ⟨r1, r2⟩
 
-theorem write_read_roundtrip_f64 (b : Nat) (hb : b < 2 ^ 64) (hn : Spec.isNormal f64 b = true) :
+theorem write_read_finite_f64 (b : Nat) (hb : b < 2 ^ 64) (hfin : f64.isFinite b = true) :
     f64BeRead (f64BeWrite b) = b ∧ f64LeRead (f64LeWrite b) = b := by
-  obtain ⟨w1, w2⟩ := ieee_write_native_f64 b hb hn
-  obtain ⟨r1, r2⟩ := ieee_read_native_f64 b hb hn
+  obtain ⟨w1, w2⟩ := ieee_write_finite_f64 b hb hfin
+  obtain ⟨r1, r2⟩ := ieee_read_finite_f64 b hb hfin
   rw [w1, w2]; exact ⟨r1, r2⟩
+
+/-- every finite normal value survives write-then-read bit for bit, in both byte orders -/
+theorem write_read_roundtrip_f32 (b : Nat) (hb : b < 2 ^ 32) (hn : Spec.isNormal f32 b = true) :
+    f32BeRead (f32BeWrite b) = b ∧ f32LeRead (f32LeWrite b) = b :=
+  write_read_finite_f32 b hb (finite_of_spec_normal f32 f32_std b hn).2
+
+theorem write_read_roundtrip_f64 (b : Nat) (hb : b < 2 ^ 64) (hn : Spec.isNormal f64 b = true) :
+    f64BeRead (f64BeWrite b) = b ∧ f64LeRead (f64LeWrite b) = b :=
+  write_read_finite_f64 b hb (finite_of_spec_normal f64 f64_std b hn).2
 
 /-- C01 over ALL finite values through the portable path, as stated -/
 def replace_roundtrip_f32_full : Prop := ∀ b, b < 2 ^ 32 → f32.isFinite b = true → f32LeRead (f32LeWrite b) = b
 def replace_roundtrip_f64_full : Prop := ∀ b, b < 2 ^ 64 → f64.isFinite b = true → f64LeRead (f64LeWrite b) = b
 
-/-- the known-finding class KF-C01-ieee-tiny: a subnormal or −0 (exponent field 0, pattern not +0) -/
+/-- … holds at full strength since the repair of the writers (KF-C01-ieee-tiny) -/
+theorem replace_roundtrip : replace_roundtrip_f32_full ∧ replace_roundtrip_f64_full :=
+  ⟨fun b hb hfin => (write_read_finite_f32 b hb hfin).2, fun b hb hfin => (write_read_finite_f64 b hb hfin).2⟩
+
+/-- non-vacuity: the hypotheses are met by the former class — subnormals and −0.0 — and by ordinary values -/
+example : f32.isFinite 0x80000000 = true ∧ f32LeRead (f32LeWrite 0x80000000) = 0x80000000 ∧
+    f32LeRead (f32LeWrite 0x007FFFFF) = 0x007FFFFF ∧ f32LeRead (f32LeWrite 1) = 1 ∧
+    f32LeRead (f32LeWrite 0x3DCCCCCD) = 0x3DCCCCCD ∧ f32LeRead (f32LeWrite 0x00800000) = 0x00800000 ∧
+    f64.isFinite 1 = true ∧ f64LeRead (f64LeWrite 1) = 1 ∧
+    f64LeRead (f64LeWrite 0x8000000000000000) = 0x8000000000000000 := by decide +kernel
+
+/-! ### the round trip before the repair (`f32LeWriteTinyOld`, `f64LeWriteTinyOld`) -/
+
+def replace_roundtrip_f32_old_rule_full : Prop :=
+  ∀ b, b < 2 ^ 32 → f32.isFinite b = true → f32LeRead (f32LeWriteTinyOld b) = b
+def replace_roundtrip_f64_old_rule_full : Prop :=
+  ∀ b, b < 2 ^ 64 → f64.isFinite b = true → f64LeRead (f64LeWriteTinyOld b) = b
+
+/-- the class of the repaired defect KF-C01-ieee-tiny: a subnormal or −0 (exponent field 0, pattern not +0) -/
 def KF.ieeeTiny (f : Fmt) (b : Nat) : Bool := f.expo b == 0 && b != 0
 
-/-- … is false: the smallest subnormal and −0 come back as +0 (the writers have no encoding for exponent field 0) -/
-theorem replace_roundtrip_fails : ¬ replace_roundtrip_f32_full ∧ ¬ replace_roundtrip_f64_full := by
+/-- old rule: the statement was false — −0.0 and the smallest double subnormal came back as +0 -/
+theorem replace_roundtrip_old_rule_fails : ¬ replace_roundtrip_f32_old_rule_full ∧ ¬ replace_roundtrip_f64_old_rule_full := by
   constructor
   · intro h
     have := h 0x80000000 (by decide) (by decide)
@@ -434,16 +564,18 @@ theorem replace_roundtrip_fails : ¬ replace_roundtrip_f32_full ∧ ¬ replace_r
     have := h 1 (by decide) (by decide)
     revert this; decide +kernel
 
-/-- outside the class — every normal value and +0 — the round trip is exact; inside it the result is +0 -/
-theorem replace_roundtrip_partial :
+/-- old rule: outside the class — every normal value and +0 — the round trip was exact; inside it the result was +0 -/
+theorem replace_roundtrip_old_rule_partial :
     (∀ b, b < 2 ^ 32 → f32.isFinite b = true →
-      (KF.ieeeTiny f32 b = false → f32LeRead (f32LeWrite b) = b) ∧ (KF.ieeeTiny f32 b = true → f32LeRead (f32LeWrite b) = 0)) ∧
+      (KF.ieeeTiny f32 b = false → f32LeRead (f32LeWriteTinyOld b) = b) ∧
+      (KF.ieeeTiny f32 b = true → f32LeRead (f32LeWriteTinyOld b) = 0)) ∧
     (∀ b, b < 2 ^ 64 → f64.isFinite b = true →
-      (KF.ieeeTiny f64 b = false → f64LeRead (f64LeWrite b) = b) ∧ (KF.ieeeTiny f64 b = true → f64LeRead (f64LeWrite b) = 0)) := by
+      (KF.ieeeTiny f64 b = false → f64LeRead (f64LeWriteTinyOld b) = b) ∧
+      (KF.ieeeTiny f64 b = true → f64LeRead (f64LeWriteTinyOld b) = 0)) := by
   constructor
   · intro b hb hfin
     by_cases he : f32.expo b = 0
-    · have hw := ((ieee_write_tiny b).1 hfin he).2
+    · have hw := ((ieee_write_tiny_old_rule b).1 hfin he).2
       have hz : f32LeRead [0, 0, 0, 0] = 0 := by decide
       constructor
       · intro hk
@@ -453,11 +585,13 @@ theorem replace_roundtrip_partial :
     · have hne : f32.expo b ≠ f32.emax := by simpa [Fmt.isFinite] using hfin
       have hn : Spec.isNormal f32 b = true := by rw [spec_isNormal_iff f32 f32_std]; simp [Fmt.isNormal, hne, he]
       constructor
-      · intro _; exact (write_read_roundtrip_f32 b hb hn).2
+      · intro _
+        rw [(ieee_write_native_tiny_old_rule.1 b hb hn).2]
+        exact (ieee_read_native_f32 b hb hn).2
       · intro hk; simp [KF.ieeeTiny, he] at hk
   · intro b hb hfin
     by_cases he : f64.expo b = 0
-    · have hw := ((ieee_write_tiny b).2 hfin he).2
+    · have hw := ((ieee_write_tiny_old_rule b).2 hfin he).2
       have hz : f64LeRead [0, 0, 0, 0, 0, 0, 0, 0] = 0 := by decide
       constructor
       · intro hk
@@ -467,12 +601,16 @@ theorem replace_roundtrip_partial :
     · have hne : f64.expo b ≠ f64.emax := by simpa [Fmt.isFinite] using hfin
       have hn : Spec.isNormal f64 b = true := by rw [spec_isNormal_iff f64 f64_std]; simp [Fmt.isNormal, hne, he]
       constructor
-      · intro _; exact (write_read_roundtrip_f64 b hb hn).2
+      · intro _
+        rw [(ieee_write_native_tiny_old_rule.2 b hb hn).2]
+        exact (ieee_read_native_f64 b hb hn).2
       · intro hk; simp [KF.ieeeTiny, he] at hk
 
-example : f32LeRead (f32LeWrite 0x3DCCCCCD) = 0x3DCCCCCD ∧ f32LeRead (f32LeWrite 0x00800000) = 0x00800000 ∧
-    KF.ieeeTiny f32 0x80000000 = true ∧ KF.ieeeTiny f32 0 = false ∧ KF.ieeeTiny f32 0x3DCCCCCD = false ∧
-    f32LeRead (f32LeWrite 0x007FFFFF) = 0 := by decide +kernel
+/-- witnesses of the old rule: 2^-127, the largest subnormal and −0.0 came back as +0 -/
+example : KF.ieeeTiny f32 0x80000000 = true ∧ KF.ieeeTiny f32 0 = false ∧ KF.ieeeTiny f32 0x3DCCCCCD = false ∧
+    KF.ieeeTiny f32 0x00400000 = true ∧ f32LeRead (f32LeWriteTinyOld 0x00400000) = 0 ∧
+    f32LeRead (f32LeWriteTinyOld 0x007FFFFF) = 0 ∧ f32LeRead (f32LeWriteTinyOld 0x80000000) = 0 ∧
+    f32LeRead (f32LeWriteTinyOld 0x3DCCCCCD) = 0x3DCCCCCD := by decide +kernel
 
 /-! ## byte-order helpers -/
 
@@ -792,7 +930,7 @@ theorem ofLE_bytesLE_f32 (x : Nat) (hx : x < 2 ^ 32) : ofLE (Spec.bytesLE f32 x)
 
 /-- C20 lifted to whole buffers, write side: for a buffer of normal values `replace_write_f` (f2bf_array + endswap_int_array)
     produces exactly the bytes of the native path, for both file byte orders -/
-theorem replace_write_native_f32 (fileBE : Bool) (xs : List Nat) (h : ∀ x ∈ xs, x < 2 ^ 32 ∧ Spec.isNormal f32 x = true) :
+theorem replace_write_finite_f32 (fileBE : Bool) (xs : List Nat) (h : ∀ x ∈ xs, x < 2 ^ 32 ∧ f32.isFinite x = true) :
     replaceWriteF32 fileBE xs = hostWrite f32 fileBE xs := by
   unfold replaceWriteF32 hostWrite
   induction xs with
@@ -802,13 +940,13 @@ theorem replace_write_native_f32 (fileBE : Bool) (xs : List Nat) (h : ∀ x ∈ 
     simp only [List.flatMap_cons]
     rw [ih (fun y hy => h y (by simp [hy]))]
     congr 1
-    rw [(ieee_write_native_f32 x hx hn).2, ofLE_bytesLE_f32 x hx]
+    rw [(ieee_write_finite_f32 x hx hn).2, ofLE_bytesLE_f32 x hx]
     cases fileBE
     · simp only [Bool.false_eq_true, if_false]; rfl
     · simp only [if_true]; rw [leBytes_endswap32]; rfl
 
 /-- … and read side: reading the native bytes of a buffer of normal values through `replace_read_f` returns the buffer -/
-theorem replace_read_native_f32 (fileBE : Bool) (xs : List Nat) (h : ∀ x ∈ xs, x < 2 ^ 32 ∧ Spec.isNormal f32 x = true) :
+theorem replace_read_finite_f32 (fileBE : Bool) (xs : List Nat) (h : ∀ x ∈ xs, x < 2 ^ 32 ∧ f32.isFinite x = true) :
     replaceReadF32 fileBE (hostWrite f32 fileBE xs) = xs := by
   unfold replaceReadF32 hostWrite
   rw [groups_flatMap 4 (by omega)]
@@ -822,12 +960,12 @@ theorem replace_read_native_f32 (fileBE : Bool) (xs : List Nat) (h : ∀ x ∈ x
     cases fileBE
     · simp only [Bool.false_eq_true, if_false]
       rw [ofLE_bytesLE_f32 x hx]
-      exact (ieee_read_native_f32 x hx hn).2
+      exact (ieee_read_finite_f32 x hx hn).2
     · simp only [if_true]
       have e : ofLE (Spec.bytesBE f32 x) = endswap32 x := by
         rw [Spec.bytesBE, hw, ← (endswap_reverses_bytes x).2]; rfl
       rw [e, endswap32_involutive x hx]
-      exact (ieee_read_native_f32 x hx hn).2
+      exact (ieee_read_finite_f32 x hx hn).2
   · intro v _
     have hw : f32.width / 8 = 4 := by decide
     cases fileBE <;> simp [Spec.bytesBE, Spec.bytesLE, hw, leBytes_length, beBytes_length]
@@ -846,7 +984,7 @@ theorem ofLE_bytesLE_f64 (x : Nat) (hx : x < 2 ^ 64) : ofLE (Spec.bytesLE f64 x)
   exact Nat.mod_eq_of_lt (by norm_num; omega)
 
 /-- the same for `replace_write_d` / `replace_read_d` (double64.c) -/
-theorem replace_write_native_f64 (fileBE : Bool) (xs : List Nat) (h : ∀ x ∈ xs, x < 2 ^ 64 ∧ Spec.isNormal f64 x = true) :
+theorem replace_write_finite_f64 (fileBE : Bool) (xs : List Nat) (h : ∀ x ∈ xs, x < 2 ^ 64 ∧ f64.isFinite x = true) :
     replaceWriteF64 fileBE xs = hostWrite f64 fileBE xs := by
   unfold replaceWriteF64 hostWrite
   induction xs with
@@ -856,12 +994,12 @@ theorem replace_write_native_f64 (fileBE : Bool) (xs : List Nat) (h : ∀ x ∈ 
     simp only [List.flatMap_cons]
     rw [ih (fun y hy => h y (by simp [hy]))]
     congr 1
-    rw [(ieee_write_native_f64 x hx hn).2, ofLE_bytesLE_f64 x hx]
+    rw [(ieee_write_finite_f64 x hx hn).2, ofLE_bytesLE_f64 x hx]
     cases fileBE
     · simp only [Bool.false_eq_true, if_false]; rfl
     · simp only [if_true]; rw [leBytes_endswap64 x hx]; rfl
 
-theorem replace_read_native_f64 (fileBE : Bool) (xs : List Nat) (h : ∀ x ∈ xs, x < 2 ^ 64 ∧ Spec.isNormal f64 x = true) :
+theorem replace_read_finite_f64 (fileBE : Bool) (xs : List Nat) (h : ∀ x ∈ xs, x < 2 ^ 64 ∧ f64.isFinite x = true) :
     replaceReadF64 fileBE (hostWrite f64 fileBE xs) = xs := by
   unfold replaceReadF64 hostWrite
   rw [groups_flatMap 8 (by omega)]
@@ -875,20 +1013,45 @@ theorem replace_read_native_f64 (fileBE : Bool) (xs : List Nat) (h : ∀ x ∈ x
     cases fileBE
     · simp only [Bool.false_eq_true, if_false]
       rw [ofLE_bytesLE_f64 x hx]
-      exact (ieee_read_native_f64 x hx hn).2
+      exact (ieee_read_finite_f64 x hx hn).2
     · simp only [if_true]
       have e : ofLE (Spec.bytesBE f64 x) = endswap64 x := by
         rw [Spec.bytesBE, hw, ← endswap64_reverses_bytes x hx]; rfl
       rw [e, endswap64_involutive x hx]
-      exact (ieee_read_native_f64 x hx hn).2
+      exact (ieee_read_finite_f64 x hx hn).2
   · intro v _
     have hw : f64.width / 8 = 8 := by decide
     cases fileBE <;> simp [Spec.bytesBE, Spec.bytesLE, hw, leBytes_length, beBytes_length]
 
-/-- non-vacuity: a buffer of ordinary values, both file byte orders -/
+/-- the C20 form of the four buffer theorems: buffers of normal values -/
+theorem replace_write_native_f32 (fileBE : Bool) (xs : List Nat) (h : ∀ x ∈ xs, x < 2 ^ 32 ∧ Spec.isNormal f32 x = true) :
+    replaceWriteF32 fileBE xs = hostWrite f32 fileBE xs :=
+  replace_write_finite_f32 fileBE xs fun x hx => ⟨(h x hx).1, (finite_of_spec_normal f32 f32_std x (h x hx).2).2⟩
+theorem replace_read_native_f32 (fileBE : Bool) (xs : List Nat) (h : ∀ x ∈ xs, x < 2 ^ 32 ∧ Spec.isNormal f32 x = true) :
+    replaceReadF32 fileBE (hostWrite f32 fileBE xs) = xs :=
+  replace_read_finite_f32 fileBE xs fun x hx => ⟨(h x hx).1, (finite_of_spec_normal f32 f32_std x (h x hx).2).2⟩
+theorem replace_write_native_f64 (fileBE : Bool) (xs : List Nat) (h : ∀ x ∈ xs, x < 2 ^ 64 ∧ Spec.isNormal f64 x = true) :
+    replaceWriteF64 fileBE xs = hostWrite f64 fileBE xs :=
+  replace_write_finite_f64 fileBE xs fun x hx => ⟨(h x hx).1, (finite_of_spec_normal f64 f64_std x (h x hx).2).2⟩
+theorem replace_read_native_f64 (fileBE : Bool) (xs : List Nat) (h : ∀ x ∈ xs, x < 2 ^ 64 ∧ Spec.isNormal f64 x = true) :
+    replaceReadF64 fileBE (hostWrite f64 fileBE xs) = xs :=
+  replace_read_finite_f64 fileBE xs fun x hx => ⟨(h x hx).1, (finite_of_spec_normal f64 f64_std x (h x hx).2).2⟩
+
+/-- C01 for whole buffers through the portable path, at full strength: what `replace_write_*` puts into the file is read back
+    by `replace_read_*` as the very buffer, for every buffer of finite values, both file byte orders -/
+theorem replace_buffer_roundtrip (fileBE : Bool) :
+    (∀ xs : List Nat, (∀ x ∈ xs, x < 2 ^ 32 ∧ f32.isFinite x = true) → replaceReadF32 fileBE (replaceWriteF32 fileBE xs) = xs) ∧
+    (∀ xs : List Nat, (∀ x ∈ xs, x < 2 ^ 64 ∧ f64.isFinite x = true) → replaceReadF64 fileBE (replaceWriteF64 fileBE xs) = xs) :=
+  ⟨fun xs h => by rw [replace_write_finite_f32 fileBE xs h, replace_read_finite_f32 fileBE xs h],
+   fun xs h => by rw [replace_write_finite_f64 fileBE xs h, replace_read_finite_f64 fileBE xs h]⟩
+
+/-- non-vacuity: a buffer of ordinary values, both file byte orders; a buffer holding −0.0, a subnormal and 2^-127 -/
 example : replaceWriteF32 true [0x3F800000, 0xC2F6E979] = [0x3F, 0x80, 0, 0, 0xC2, 0xF6, 0xE9, 0x79] ∧
     replaceReadF32 false [0, 0, 0x80, 0x3F, 0x79, 0xE9, 0xF6, 0xC2] = [0x3F800000, 0xC2F6E979] ∧
     hostWrite f32 false [0x3F800000] = [0, 0, 0x80, 0x3F] ∧
-    replaceReadF64 true [0x40, 0x09, 0x21, 0xFB, 0x54, 0x44, 0x2D, 0x18] = [0x400921FB54442D18] := by decide +kernel
+    replaceReadF64 true [0x40, 0x09, 0x21, 0xFB, 0x54, 0x44, 0x2D, 0x18] = [0x400921FB54442D18] ∧
+    replaceWriteF32 true [0x80000000, 1, 0x00400000] = [0x80, 0, 0, 0, 0, 0, 0, 1, 0, 0x40, 0, 0] ∧
+    replaceReadF32 true (replaceWriteF32 true [0x80000000, 1, 0x00400000]) = [0x80000000, 1, 0x00400000] ∧
+    replaceWriteF64 false [0x8000000000000001] = [1, 0, 0, 0, 0, 0, 0, 0x80] := by decide +kernel
 
 end Sf.C20Ieee
